@@ -167,8 +167,16 @@ _UFS: dict[str, Any] = {}
 
 def ufun(name: str, *sorts):
     key = name
-    if key not in _UFS:
-        _UFS[key] = z3.Function(name, *sorts)
+    if key in _UFS:
+        f = _UFS[key]
+        if f.arity() == len(sorts) - 1 and all(f.domain(i) == sorts[i] for i in range(f.arity())) and f.range() == sorts[-1]:
+            return f
+        # same specification function applied to a differently represented argument (e.g. a map by name / by value)
+        key = name + "@" + ",".join(str(x) for x in sorts)
+        if key not in _UFS:
+            _UFS[key] = z3.Function(key, *sorts)
+        return _UFS[key]
+    _UFS[key] = z3.Function(name, *sorts)
     return _UFS[key]
 
 
